@@ -87,6 +87,68 @@ theorem memoAssess_snap (strat : Strategy) (progs : List (Codes × TaxaSpans)) (
       rw [f1, f2]
       exact ⟨rfl, rfl⟩
 
+/-! ### Snapshots: first wins, and a new one is the current knowledge -/
+
+/-- `snap'` extends `snap` under current knowledge `K`: nothing recorded is replaced, and whatever is new
+records `K`. -/
+def SnapExt (K : List Codes) (snap snap' : List (Codes × List Codes)) : Prop :=
+  (∀ t K0, dictGet? snap t = some K0 → dictGet? snap' t = some K0) ∧
+  (∀ t K1, dictGet? snap' t = some K1 → dictGet? snap t = some K1 ∨ (dictGet? snap t = none ∧ K1 = K))
+
+theorem SnapExt.refl (K : List Codes) (snap : List (Codes × List Codes)) : SnapExt K snap snap :=
+  ⟨fun _ _ h => h, fun _ _ h => Or.inl h⟩
+
+theorem SnapExt.trans {K : List Codes} {a b c : List (Codes × List Codes)} (h1 : SnapExt K a b) (h2 : SnapExt K b c) :
+    SnapExt K a c := by
+  refine ⟨fun t K0 h => h2.1 t K0 (h1.1 t K0 h), fun t K1 h => ?_⟩
+  rcases h2.2 t K1 h with hb | ⟨hb, rfl⟩
+  · exact h1.2 t K1 hb
+  · cases ha : dictGet? a t with
+    | none => exact Or.inr ⟨rfl, rfl⟩
+    | some K0 => rw [h1.1 t K0 ha] at hb; cases hb
+
+theorem gCost_ext (strat : Strategy) (K : List Codes) (snap : List (Codes × List Codes)) (t : Codes) :
+    SnapExt K snap (gCost strat K snap t).1 := by
+  unfold gCost
+  cases hg : dictGet? snap t with
+  | some K0 => exact SnapExt.refl K snap
+  | none =>
+    refine ⟨fun t' K0 h => by simp only [dictGet?_append_single, h], fun t' K1 h => ?_⟩
+    simp only [dictGet?_append_single] at h
+    cases hs : dictGet? snap t' with
+    | some x => rw [hs] at h; exact Or.inl h
+    | none =>
+      rw [hs] at h
+      simp only at h
+      split at h
+      · cases h; exact Or.inr ⟨rfl, rfl⟩
+      · cases h
+
+theorem gProgramCost_ext (strat : Strategy) (K : List Codes) (rec : TaxaSpans) (snap : List (Codes × List Codes)) :
+    SnapExt K snap (gProgramCost strat K snap rec).1 := by
+  unfold gProgramCost
+  have gen : ∀ (l : TaxaSpans) (sn : List (Codes × List Codes)) (a : Rat),
+      SnapExt K sn (l.foldl (fun acc ts =>
+        ((gCost strat K acc.1 ts.1).1, acc.2 + (gCost strat K acc.1 ts.1).2)) (sn, a)).1 := by
+    intro l
+    induction l with
+    | nil => intro sn a; exact SnapExt.refl K sn
+    | cons x r ih =>
+      intro sn a
+      simp only [List.foldl_cons]
+      exact (gCost_ext strat K sn x.1).trans (ih _ _)
+  exact gen rec snap 0
+
+theorem gAssess_ext (strat : Strategy) (progs : List (Codes × TaxaSpans)) (K : List Codes) (sel : List Codes)
+    (snap : List (Codes × List Codes)) : SnapExt K snap (gAssess strat progs K snap sel).1 := by
+  induction sel generalizing snap with
+  | nil => exact SnapExt.refl K snap
+  | cons p ps ih =>
+    unfold gAssess
+    cases dictGet? progs p with
+    | none => exact SnapExt.refl K snap
+    | some rec => exact (gProgramCost_ext strat K rec snap).trans (ih _)
+
 /-- The simulation relation between the memo machine and the snapshot machine. -/
 def SnapRel (strat : Strategy) (s : SState) (g : GState) : Prop :=
   s.heap = g.heap ∧ s.ptr = g.ptr ∧ s.memo = g.snap.map (snapEntry strat)
